@@ -134,6 +134,38 @@ def post_c20(pid, tier, cfgs, results):
 
 POST_INFO = {}
 
+
+def run_loom(pid, tier):
+    """E3: build the loom harness (RUSTFLAGS --cfg loom, own target dir) from /repo's working tree and run it."""
+    import subprocess
+    env = dict(os.environ)
+    env.update(CARGO_NET_OFFLINE="true", CARGO_TARGET_DIR=os.path.join(core.TARGET, "loom"), RUSTFLAGS="--cfg loom")
+    env.pop("VERIF_DETECT", None)
+    r = subprocess.run(["cargo", "build", "--offline", "-q", "--release", "-p", "loommc"], cwd=core.HARNESS, env=env, capture_output=True, text=True)
+    if r.returncode != 0:
+        core.die("loom harness build failed:\n" + r.stderr[-4000:])
+    exe = os.path.join(core.TARGET, "loom", "release", "loommc")
+    r = subprocess.run([exe] + (["thorough"] if tier == "thorough" else []), env=env, capture_output=True, text=True, timeout=3600)
+    try:
+        res = json.loads(r.stdout.strip().splitlines()[-1])
+    except Exception:
+        core.die("loom harness produced no result:\n" + r.stderr[-3000:])
+    viol = []
+    for h in res:
+        if h.get("violation"):
+            viol.append(dict(property=pid, subject="aes (threads)", what="schedule", config="loom",
+                             case={"kind": "loom", "harness": h["harness"]}, expected="every thread's output equals FIPS-197 in every interleaving",
+                             observed=h["violation"], note="loom found an interleaving of the detection cache under which a thread computes a wrong result"))
+        elif h["harness"].startswith(("H1", "H2")) and len(h.get("detections_histogram", {})) < 2:
+            core.die(f"loom vacuity guard: harness {h['harness']} produced a single detection outcome {h.get('detections_histogram')}: the threads never raced on the cache")
+    POST_INFO["loom"] = res
+    POST_INFO["loom_schedules"] = sum(h.get("executions", 0) for h in res)
+    return viol
+
+
+def post_c15(pid, tier, cfgs, results):
+    return run_loom(pid, tier)
+
 LEVEL_NOTE_DATA = "data values outside the declared alphabets (DESIGN §2.3) are not covered"
 ASSUME_STD = [LEVEL_NOTE_DATA,
               "ARMv8/NEON back ends and fixslice32 are not reachable natively on this x86-64 host"]
@@ -193,6 +225,26 @@ TABLE = {
                 rule="cases = (cipher type, slice length in 0..=300,1024,4096, two key fillings) for the accepted-length contract, plus constructor-equivalence cases (new vs new_from_slice, "
                      "Rc2 slice vs eff 8*len for all 128 lengths, CAST5/CAST6/Serpent short vs padded key, Threefish new vs zero tweak) compared on probe blocks; non-trivial = accepted lengths, their neighbours and every equivalence case.",
                 assumptions=[LEVEL_NOTE_DATA]),
+    "C12": dict(level="model_checking", cfgs=std_cfgs, engine="seqmc (stateright)",
+                technique="explicit-state BFS (stateright) over construction/conversion/clone/drop histories; every history re-executed on fresh real objects next to the reference model",
+                rule="states = operation histories over a pool of <=3 instances with the menu {new Full/Enc/Dec with key k0|k1(|k2), From<Enc> by value -> Full|Dec, From<&Enc> -> Full|Dec, clone, drop}; after EVERY step every live instance is probed "
+                     "(encrypt/decrypt of 2 blocks, batches of 22 blocks) against the reference for the key it was made from; explored by stateright BFS for the three AES sizes and Kuznyechik in every native configuration (incl. detection off) and for every other cipher type (clone/drop chains).",
+                bound={"quick": "all histories of depth <= 5", "thorough": "all histories of depth <= 6 (Full/Enc/Dec families) / 7 (plain types)"},
+                assumptions=["reference models validated by refcheck", "probe data fixed (2 blocks + one 22-block batch per direction)"]),
+    "C14": dict(level="model_checking", cfgs=lambda t: [Q("N0", "vdev", True, crates="blowfish")] + ([Q("N0", "vrel", True, crates="blowfish")] if t == "thorough" else []), engine="seqmc (stateright)",
+                technique="explicit-state BFS (stateright) over bcrypt call histories on one Blowfish state; whole state compared with the eksblowfish reference after every step",
+                rule="states = call histories over {bc_init_state, bc_expand_key(9 keys of length 1..72), salted_expand_key(9 salts of length 1..32 incl. all-zero x 3 keys), bc_encrypt(3 word pairs)}; after every step the 1042 state words and 1027 bc_encrypt probes "
+                     "are compared with the Provos-Mazieres reference; plus expand == zero-salt == KeyInit equivalences and the real bcrypt cost loop for cost 0..4 (0..8 thorough).",
+                bound={"quick": "all histories of depth <= 3 (64 000)", "thorough": "all histories of depth <= 4 (2 560 000)"},
+                assumptions=["eksblowfish reference validated by reproducing 10 libxcrypt bcrypt hashes and OpenSSL Blowfish (refcheck)"]),
+    "C15": dict(level="model_checking", cfgs=std_cfgs, post=post_c15, engine="seqmc (stateright) + loommc (loom)",
+                technique="explicit-state BFS (stateright) over multi-instance call histories on the real code, plus loom DPOR exploration of every interleaving of the real aes detection-cache code (unbounded for 2 and 3 threads)",
+                rule="histories: states = operation histories over a pool of <=3 instances with the menu {construct k0|k1(|k2), clone, convert, drop, encrypt/decrypt block b0|b1, batch of 22} for every cipher family; every call result is compared with the reference "
+                     "value for (key, input) and survivors are re-probed at the end. schedules: loom explores all interleavings (and all values a Relaxed load may return) of 2- and 3-thread harnesses over the real aes::autodetect / aes::hazmat detection caches, "
+                     "for detection answer present and absent, asserting every thread's output against FIPS-197.",
+                bound={"quick": "all histories of depth <= 4; loom unbounded (H1 2 threads, H2/H3 3 threads)", "thorough": "all histories of depth <= 5; loom unbounded"},
+                assumptions=["unsynchronised (non-atomic) shared accesses are invisible to loom; sequential leakage through such state is covered by the histories",
+                             "loom 0.7.2 cannot run harnesses in which a third thread loads the cache after two concurrent detection stores (internal assertion); H3 therefore initialises the cache first"]),
     "C13": dict(level="model_checking", cfgs=std_cfgs,
                 rule="cases = (type, key): AES upper half zero/every single upper bit/every upper byte value x lower-half alphabet; DES 64 listed keys x 256 parity patterns, every listed key with each non-parity bit flipped, generic keys; "
                      "Triple-DES bundles from listed/generic/parity-flipped parts; every other type on generic keys. Each case evaluates weak_key_test and new_checked on the implementation and the statement's predicate (model); "
@@ -222,6 +274,7 @@ TABLE = {
 
 def run_property(pid, tier):
     t0 = time.time()
+    POST_INFO.clear()
     spec = TABLE[pid]
     core.ensure_seam()
     cfgs = spec["cfgs"](tier)
@@ -307,7 +360,7 @@ def run_property(pid, tier):
         known_findings_matched=sorted(known_hits.keys()),
     )
     if spec["level"] == "model_checking":
-        cov.update(states=ev, transitions=calls, traces_validated_against_impl=refc)
+        cov.update(states=counters.get("histories", ev), transitions=counters.get("transitions", calls), traces_validated_against_impl=refc)
     if POST_INFO:
         cov.update(POST_INFO)
     notes = []
@@ -351,9 +404,10 @@ def replay(path):
     return r.returncode
 
 
-NOT_YET = {
-    "C12": "history exploration (stateright) under construction",
-    "C14": "eksblowfish history exploration (stateright) under construction",
-    "C15": "history (stateright) and schedule (loom) exploration under construction",
-}
-EXTRA_ENGINES = []
+NOT_YET = {}
+EXTRA_ENGINES = [
+    {"name": "seqmc (stateright)", "path": "harness/vh/src/props/hist.rs, harness/vh/src/props/c14.rs", "serves_properties": ["C12", "C14", "C15"],
+     "kind_free_text": "stateright 0.31 BFS; state = operation history; the always-property re-executes the history on fresh real objects and the reference model"},
+    {"name": "loommc (loom)", "path": "harness/loommc", "serves_properties": ["C15"],
+     "kind_free_text": "loom 0.7 DPOR over the real aes crate whose cpufeatures::new! expansion resolves to the derived cpufeatures seam (loom atomics + lazy_static under --cfg loom)"},
+]
